@@ -5,6 +5,7 @@ import (
 	"encoding/binary"
 	"fmt"
 	"sort"
+	"strings"
 )
 
 // ValidateOpts describes the source tree for the checks that need it.
@@ -254,23 +255,61 @@ func dirTails(d *Dir) []dirTail {
 
 func (v *validator) v05(nh namedHier) {
 	h := nh.h
-	// pairing of primary directories with Joliet directories (positional) so
-	// that ChildCount, which is keyed by source paths, can be applied to the
-	// primary hierarchy as well
+	// pairing of primary directories with Joliet directories so that ChildCount, which is keyed by
+	// source paths, can be applied to the primary hierarchy as well. The two hierarchies need not list
+	// their records in the same order, so children are paired by name (primary = upper-cased Joliet
+	// name) where that is unambiguous; directories that cannot be paired (mangled names) are covered by
+	// the order-independent comparison of the multiset of child counts below.
 	var pair map[*Dir]*Dir
 	if v.o.ChildCount != nil && !h.joliet && v.img.Joliet != nil && h.Root != nil && v.img.Joliet.Root != nil {
 		pair = map[*Dir]*Dir{h.Root: v.img.Joliet.Root}
+		base := func(p string) string {
+			if i := strings.LastIndexByte(p, '/'); i >= 0 {
+				return p[i+1:]
+			}
+			return p
+		}
 		for _, d := range h.Dirs {
 			j := pair[d]
-			if j == nil || len(j.Subdirs) != len(d.Subdirs) {
+			if j == nil {
 				continue
 			}
-			for i, c := range d.Subdirs {
-				pair[c] = j.Subdirs[i]
+			byUpper := map[string][]*Dir{}
+			for _, jc := range j.Subdirs {
+				k := strings.ToUpper(base(jc.Path))
+				byUpper[k] = append(byUpper[k], jc)
+			}
+			matched := 0
+			for _, c := range d.Subdirs {
+				if m := byUpper[strings.ToUpper(base(c.Path))]; len(m) == 1 {
+					pair[c] = m[0]
+					matched++
+				}
 			}
 		}
 	}
 
+	var allCounts []int
+	unresolved := 0
+	defer func() {
+		// order- and name-independent: the child counts of all directories of the hierarchy, as a
+		// multiset, are those of the source directories
+		if v.o.ChildCount == nil || unresolved == 0 || len(allCounts) != len(v.o.ChildCount) {
+			return
+		}
+		var want []int
+		for _, n := range v.o.ChildCount {
+			want = append(want, n)
+		}
+		sort.Ints(want)
+		sort.Ints(allCounts)
+		for i := range want {
+			if want[i] != allCounts[i] {
+				v.iss.add("V05", "%s hierarchy: child counts of its %d directories (sorted) %v differ from those of the source directories %v", nh.name, len(allCounts), allCounts, want)
+				return
+			}
+		}
+	}()
 	for _, d := range h.Dirs {
 		w := fmt.Sprintf("%s directory %q (LBA %d)", nh.name, d.Path, d.LBA)
 		children := 0
@@ -326,6 +365,10 @@ func (v *validator) v05(nh namedHier) {
 					key = d.Path
 					_, ok = v.o.ChildCount[key]
 				}
+			}
+			allCounts = append(allCounts, children)
+			if !ok {
+				unresolved++
 			}
 			if ok {
 				if want := v.o.ChildCount[key]; children != want {
